@@ -703,6 +703,59 @@ pub fn enumerate_inputs(ctx: &Ctx, visit: Visit, shrink: usize) {
         });
         ctx.space("R9: every 16-bit flags word (reserved bit clear) x every value of the OPT TTL's extended-RCODE byte (with zero and non-zero version / flag bytes), every RCODE nibble x every version byte and flag bytes; boundary bytes for words with the reserved bit set", total.load(std::sync::atomic::Ordering::Relaxed), "complete");
     }
+    // R10: content with an inner structure: EDNS options with family / prefix / address shaped
+    // payloads, and tag / value records (CAA, TXT key=value) whose tag is a word software knows
+    // and whose value has a multi-byte character or an invalid byte at every offset 0..=24
+    {
+        let mut msgs: Vec<Vec<u8>> = Vec::new();
+        for (code, data) in gen::structured_options() {
+            // (the properties that reuse these inputs at a lower bound take the client-subnet code and its neighbours)
+            if shrink > 0 && !(7..=9).contains(&code) {
+                continue;
+            }
+            let mut m = header(0x0100, [0, 0, 0, 1]);
+            m.extend_from_slice(&[0, 0, 41, 0x04, 0xd0, 0, 0, 0, 0]);
+            m.extend_from_slice(&((data.0.len() + 4) as u16).to_be_bytes());
+            m.extend_from_slice(&code.to_be_bytes());
+            m.extend_from_slice(&(data.0.len() as u16).to_be_bytes());
+            m.extend_from_slice(&data.0);
+            msgs.push(m);
+        }
+        let tags: Vec<&str> = gen::dictionary_strings().into_iter().filter(|s| !s.is_empty() && s.len() <= 15 && s.bytes().all(|b| b.is_ascii_alphanumeric())).collect();
+        let values = gen::alignment_strings();
+        let tags: Vec<&str> = if shrink > 0 { tags.into_iter().filter(|t| ["issue", "iodef", "IODEF", "issuewild", "txtvers", "path"].contains(t)).collect() } else { tags };
+        for tag in &tags {
+            for v in &values {
+                // CAA: flags, tag length, tag, value
+                let mut rd: Vec<u8> = vec![0, tag.len() as u8];
+                rd.extend_from_slice(tag.as_bytes());
+                rd.extend_from_slice(v);
+                let mut m = header(0x8400, [0, 1, 0, 0]);
+                m.extend_from_slice(&[0, 0x01, 0x01, 0, 1, 0, 0, 0, 9]);
+                m.extend_from_slice(&(rd.len() as u16).to_be_bytes());
+                m.extend_from_slice(&rd);
+                msgs.push(m);
+                // TXT: one string "tag=value"
+                let mut s: Vec<u8> = tag.as_bytes().to_vec();
+                s.push(b'=');
+                s.extend_from_slice(v);
+                let mut m = header(0x8400, [0, 1, 0, 0]);
+                m.extend_from_slice(&[0, 0, 16, 0, 1, 0, 0, 0, 9]);
+                m.extend_from_slice(&((s.len() + 1) as u16).to_be_bytes());
+                m.push(s.len() as u8);
+                m.extend_from_slice(&s);
+                msgs.push(m);
+            }
+        }
+        let n_msgs = msgs.len() as u64;
+        let chunks: Vec<&[Vec<u8>]> = msgs.chunks(256).collect();
+        par_shards(ctx, &chunks, |ms, t: &mut Tally| {
+            for m in ms.iter() {
+                visit(m, t);
+            }
+        });
+        ctx.space("R10: structured content: EDNS options 0..=20 and 65001 with payloads of every length 0..=24 starting 00 01 / 00 02 / 00 00 / ff ff and 14 third bytes (full product for codes 7..=9); CAA records and TXT key=value strings whose tag is each alphanumeric word of the string dictionary and whose value has a multi-byte character or invalid byte at every offset 0..=24", n_msgs, "complete");
+    }
     // R6: every TYPE code x class x short generic RDATA bodies
     {
         let codes: Vec<u32> = if shrink == 0 { (0..=65535u32).collect() } else { (0..=300u32).chain(32760..=32780).chain(65270..=65535).collect() };
